@@ -37,6 +37,9 @@ func equivOf(fam string) func(a, b int) bool {
 	if fam == "mod2" {
 		return func(a, b int) bool { return a%2 == b%2 }
 	}
+	if fam == "leq" { // not symmetric: the FIRST argument is the slice element / the value already kept, the second the value asked about
+		return func(a, b int) bool { return a <= b }
+	}
 	if fam == "near" { // reflexive and symmetric but NOT transitive: "differs by at most one"
 		return func(a, b int) bool { return a-b <= 1 && b-a <= 1 }
 	}
